@@ -3319,4 +3319,65 @@ example : any (fun x : Option Nat => match x with | some n => .ok (decide (n > 0
     [some 1, none] = .ok true := by decide
 
 
+/-! ## words / trim: "runs of whitespace" means `char::is_whitespace` (Unicode `White_Space`) -/
+
+theorem splitOnP_no_sep (p : γ → Bool) (s : List γ) : ∀ w ∈ SeqSpec.splitOnP p s, ∀ c ∈ w, p c = false := by
+  induction s with
+  | nil => intro w hw; simp [SeqSpec.splitOnP] at hw; subst hw; intro c hc; cases hc
+  | cons x xs ih =>
+    intro w hw
+    simp only [SeqSpec.splitOnP] at hw
+    by_cases hx : p x = true
+    · simp only [hx, if_true, List.mem_cons] at hw
+      rcases hw with rfl | hw
+      · intro c hc; cases hc
+      · exact ih w hw
+    · have hx' : p x = false := by simpa using hx
+      simp only [hx', Bool.false_eq_true, if_false] at hw
+      cases hq : SeqSpec.splitOnP p xs with
+      | nil => rw [hq] at hw; simp at hw; subst hw; intro c hc; simp at hc; subst hc; exact hx'
+      | cons a b =>
+        rw [hq] at hw
+        rcases List.mem_cons.mp hw with rfl | hw
+        · intro c hc
+          rcases List.mem_cons.mp hc with rfl | hc
+          · exact hx'
+          · exact ih a (by rw [hq]; simp) c hc
+        · exact ih w (by rw [hq]; simp [hw])
+
+/-- every word is non-empty and contains no whitespace character -/
+theorem words_pieces (p : γ → Bool) (s : List γ) :
+    ∀ w ∈ words p s, w ≠ [] ∧ ∀ c ∈ w, p c = false := by
+  intro w hw
+  rw [words_eq] at hw
+  simp only [SeqSpec.words, List.mem_filter] at hw
+  exact ⟨by intro h; rw [h] at hw; simp at hw, splitOnP_no_sep p s w hw.1⟩
+
+/-- `trim_start` removes exactly the leading whitespace run; `trim_end` the trailing one -/
+theorem trimStart_spec (s : List Char) :
+    s.takeWhile isWs ++ trimStart s = s ∧ (∀ c, (trimStart s).head? = some c → isWs c = false) := by
+  refine ⟨List.takeWhile_append_dropWhile, ?_⟩
+  intro c hc
+  unfold trimStart at hc
+  induction s with
+  | nil => simp at hc
+  | cons x xs ih =>
+    simp only [List.dropWhile_cons] at hc
+    by_cases hx : isWs x = true
+    · simp only [hx, if_true] at hc; exact ih hc
+    · have hx' : isWs x = false := by simpa using hx
+      simp only [hx', Bool.false_eq_true, if_false, List.head?_cons, Option.some.injEq] at hc
+      subst hc; exact hx'
+
+theorem trimEnd_spec (s : List Char) : trimEnd s ++ (s.reverse.takeWhile isWs).reverse = s := by
+  unfold trimEnd
+  rw [← List.reverse_append, List.takeWhile_append_dropWhile, List.reverse_reverse]
+
+/-- the table: the ASCII blanks 9–13, space, NEL, NBSP, the U+2000 block, line / paragraph separator,
+U+3000 are whitespace; ZERO WIDTH SPACE, the BOM and U+001C are not -/
+example : ([' ', '\t', '\n', '\r', '\u000b', '\u000c', '\u0085', ' ', ' ', ' ', ' ',
+    ' ', ' ', ' ', ' ', '　'].all isWs) = true
+    ∧ (['a', '​', '﻿', '\u001c', '᠎'].any isWs) = false := by decide
+
+
 end Noulith.C13
